@@ -63,7 +63,7 @@ func valueZoo() []any {
 		zoo.BadUnexported{}, &zoo.BadUnexported{}, zoo.EmbUnexp{}, &zoo.EmbUnexp{}, zoo.EmbNonStruct{}, &zoo.EmbNonStruct{},
 		zoo.DupTags{}, zoo.BadFlag{}, zoo.BadTag1{}, zoo.BadTag2{}, zoo.BadTag3{}, zoo.BadTag4{}, zoo.BadTag5{}, zoo.BadTag6{}, &zoo.BadTag7{},
 		zoo.BadTag8{}, zoo.BadTag9{}, zoo.BadTag10{}, zoo.BadTag11{}, zoo.BadTag12{}, zoo.BadTag13{}, []zoo.BadTag6{{}}, zoo.OmitKinds{}, &zoo.OmitKinds{Bs: []byte{}}, zoo.NoTags{}, &zoo.NoTags{}, zoo.Empty{}, &zoo.Empty{},
-		zoo.ROuter{}, &zoo.ROuter{}, zoo.ROuter2{}, zoo.RNode{}, zoo.Kinds{}, &zoo.Kinds{}, zoo.Omit{}, &zoo.Omit{}, zoo.Tags{}, &zoo.Tags{}, zoo.EmbTagged{}, &zoo.EmbTagged{},
+		zoo.HHome{}, &zoo.HHome{}, []zoo.HHome{{}}, zoo.ROuter{}, &zoo.ROuter{}, zoo.ROuter2{}, zoo.RNode{}, zoo.Kinds{}, &zoo.Kinds{}, zoo.Omit{}, &zoo.Omit{}, zoo.Tags{}, &zoo.Tags{}, zoo.EmbTagged{}, &zoo.EmbTagged{},
 		m, &m, mk, &mk, emptyM, &emptyM, ptrNilM, ptrNilMK, zoo.MS{"k": "v"}, zoo.MI{"k": 1}, zoo.BadMapInt{1: "a"}, zoo.BadMapAny{"k": 1},
 		map[string]any{"k": 1}, &map[string]any{}, map[int]int{}, other.M{"k": 1}, other.Person{ID: 1}, &other.Person{},
 		ints, &ints, []int{1}, &[]int{1}, zoo.S{1, "a", nil}, zoo.Strs{}, zoo.Bytes("ab"), []byte("ab"), [][]int{{1}},
@@ -84,6 +84,8 @@ type zooStmt struct {
 func zooStatements() []zooStmt {
 	return []zooStmt{
 		{"SELECT &Person.* FROM t", []any{zoo.Person{}}, nil},
+		{"SELECT &HHome.* FROM t", []any{zoo.HHome{}}, nil},
+		{"INSERT INTO t (*) VALUES ($HHome.*)", []any{zoo.HHome{}}, []any{zoo.HHome{}}},
 		{"SELECT &Emb.*, &M.k FROM t", []any{zoo.Emb{}, zoo.M{}}, nil},
 		{"SELECT &EmbPtr.* FROM t", []any{zoo.EmbPtr{}}, nil},
 		{"SELECT &Deep.* FROM t", []any{zoo.Deep{}}, nil},
